@@ -66,6 +66,25 @@ pub fn replay(cases: &str, verdicts: &str, table: &str) {
         v.check(ext_matches(d.mean(), &c["mean"], sd_scale), kind, &format!("mean {}", c["mean"]["t"].as_str().unwrap()), &ident, json!({"got": fj(d.mean()), "expected": c["mean"]}));
         v.check(ext_matches(d.var(), &c["var"], sd_scale * sd_scale), kind, &format!("var {}", c["var"]["t"].as_str().unwrap()), &ident, json!({"got": fj(d.var()), "expected": c["var"]}));
         let pts = row["pts"].as_array().unwrap();
+        // the same parameter setting reached through the bulk update and through the setters, starting from every other
+        // table row of the kind: density, mean and variance are those of the freshly constructed object
+        for other in rows.iter().filter(|r| r["kind"] == c["kind"] && r["p"] != c["p"]) {
+            let q0 = ints(&other["p"]);
+            for via in ["update", "setters"] {
+                let mut o = match D::new(kind, &params_of(kind, &q0)) { Some(o) => o, None => continue };
+                let reached = if via == "update" { o.update(&params) } else {
+                    // field order that keeps intermediate tuples valid is not known in general: try both orders
+                    let mut a = o.clone();
+                    let fwd = (0..params.len()).all(|i| a.set(i, params[i]));
+                    if fwd { o = a; true } else { (0..params.len()).rev().all(|i| o.set(i, params[i])) }
+                };
+                if !reached { if via == "update" { v.check(false, kind, "reached via update", &json!({"kind": kind, "from": q0, "to": q}), json!("panic")); } continue; }
+                let same = pts.iter().all(|p| { let x = p["xn"].as_i64().unwrap() as f64 / p["xd"].as_i64().unwrap() as f64;
+                    match (d.pf(x), o.pf(x)) { (Some(a), Some(b)) => a.to_bits() == b.to_bits() || (a - b).abs() <= 1e-12 * a.abs(), (None, None) => true, _ => false } })
+                    && (d.mean() == o.mean() || (d.mean().is_nan() && o.mean().is_nan())) && (d.var() == o.var() || (d.var().is_nan() && o.var().is_nan()));
+                v.check(same, kind, &format!("density after {}", via), &json!({"kind": kind, "from": q0, "to": q}), json!(null));
+            }
+        }
         let ins = c["insupport"].as_array().unwrap();
         let pmf = c["pmf"].as_array().unwrap();
         let refs: Vec<f64> = pts.iter().map(|p| { let s = p["pdf"].as_str().unwrap(); if s == "inf" { f64::INFINITY } else { s.parse().unwrap() } }).collect();
@@ -78,6 +97,14 @@ pub fn replay(cases: &str, verdicts: &str, table: &str) {
             let pid = json!({"kind": kind, "p": q, "x": x, "ref": fj(refp)});
             if c["boundary"][j].as_bool().unwrap() {
                 v.check(g.map(|g| g >= 0.0 && !g.is_nan()).unwrap_or(false), kind, "pdf support-end-point", &pid, json!(g.map(fj)));
+                // a closed end of the documented support with a finite textbook value is a point of the support like any other
+                if c["closed_end"][j].as_bool().unwrap_or(false) && refp.is_finite() {
+                    let ok = g.map(|g| if refp == 0.0 { g == 0.0 } else { ((g - refp) / refp).abs() <= 1e-9 }).unwrap_or(false);
+                    v.check(ok, kind, "pdf closed-end-point", &pid, json!(g.map(fj)));
+                    if let (Some(g), Some(lg)) = (g, d.ln_pf(x)) {
+                        if g > 0.0 { v.check((lg - g.ln()).abs() <= 1e-9 * (1.0 + g.ln().abs()), kind, "ln_pdf = ln(pdf) closed-end-point", &pid, json!({"ln_pdf": fj(lg), "ln(pdf)": fj(g.ln())})); }
+                    }
+                }
                 continue;
             }
             if !inside {
